@@ -312,13 +312,16 @@ func newQueryPlan(ctx context.Context, store storage.Store, stm *semantic.Statem
 func (p *queryPlan) processClause(ctx context.Context, cls *semantic.GraphClause, lo *storage.LookupOptions) (bool, error) {
 	// This method decides how to process the clause based on the current
 	// list of bindings solved and data available.
-	if cls.Specificity() == 3 {
+	if cls.Specificity() == 3 && !cls.HasAlias() {
+		// Fully specified and binding nothing: the clause only has to hold, it has
+		// nothing to add to the rows resolved by the other clauses. (With aliases
+		// it binds values and is resolved as any other clause below.)
 		tracer.V(3).Trace(p.tracer, func() *tracer.Arguments {
 			return &tracer.Arguments{
 				Msgs: []string{"Clause is fully specified"},
 			}
 		})
-		if cls.Optional && !cls.HasAlias() {
+		if cls.Optional {
 			tracer.V(3).Trace(p.tracer, func() *tracer.Arguments {
 				return &tracer.Arguments{
 					Msgs: []string{fmt.Sprintf("Processing optional clause of specificity 3: %v", cls)},
@@ -334,17 +337,9 @@ func (p *queryPlan) processClause(ctx context.Context, cls *semantic.GraphClause
 			// A temporal predicate anchored outside the time bounds cannot match.
 			return true, nil
 		}
-		b, tbl, err := simpleExist(ctx, p.grfs, cls, t, p.tracer)
+		b, _, err := simpleExist(ctx, p.grfs, cls, t, p.tracer)
 		if err != nil {
 			return false, err
-		}
-		if len(tbl.Bindings()) == 0 {
-			// The clause binds nothing: it only has to hold, and has nothing
-			// to add to the rows resolved by the other clauses.
-			return b, nil
-		}
-		if err := p.tbl.AppendTable(tbl); err != nil {
-			return b, err
 		}
 		return b, nil
 	}
